@@ -232,7 +232,22 @@ func newWorld(cfg map[string]any) (*world, error) {
 		return nil, err
 	}
 	w.r = r
+	for _, rc := range rcs {
+		scribbleConfig(rc)
+	}
 	return w, nil
+}
+
+// scribbleConfig: a realm is configured by the RealmConfig it was created from as it was at
+// that moment. An embedder may reuse the variable for the next realm (other URI, other
+// Authorizer, other switches), so the harness overwrites every configuration it has handed to
+// NewRouter or AddRealm once the call has returned; a realm that reads its settings through
+// the caller's struct later on then behaves like the scribbled configuration, not like its own.
+// (Not the template: the router is documented to create realms from it later.)
+func scribbleConfig(rc *router.RealmConfig) {
+	*rc = router.RealmConfig{URI: "verif.scribbled", StrictURI: !rc.StrictURI, AllowDisclose: !rc.AllowDisclose,
+		EnableMetaKill: !rc.EnableMetaKill, EnableMetaModify: !rc.EnableMetaModify, MetaStrict: !rc.MetaStrict,
+		RequireLocalAuth: !rc.RequireLocalAuth, RequireLocalAuthz: !rc.RequireLocalAuthz}
 }
 
 // toGo converts a decoded JSON value of an op into the Go value a client would
@@ -390,11 +405,12 @@ func (w *world) join(op map[string]any) string {
 	if hd == nil {
 		hd = wamp.Dict{}
 	}
+	helloMsg := &wamp.Hello{Realm: wamp.URI(realm), Details: hd}
 	w.helpers.Add(2)
 	go func() {
 		defer w.helpers.Done()
 		select {
-		case c.Send() <- &wamp.Hello{Realm: wamp.URI(realm), Details: hd}:
+		case c.Send() <- helloMsg:
 		case <-w.quit:
 		}
 	}()
@@ -440,6 +456,18 @@ func (w *world) join(op map[string]any) string {
 		w.sidKey[wel.ID] = key
 		if b, err := json.Marshal(wamp.NormalizeDict(wel.Details)["roles"]); err == nil {
 			w.lastRoles = string(b)
+		}
+		// The identity of a session is what the router established at the handshake. An in-process
+		// client still holds the HELLO it sent (the router even stores a normalised dict back into
+		// it): the harness overwrites both dicts now, as a client reusing the message would. A
+		// session whose details alias the message then shows the scribbled identity in the meta API.
+		for _, d := range []wamp.Dict{hd, helloMsg.Details} {
+			for k := range d {
+				d[k] = "verif-scribbled"
+			}
+			for _, k := range []string{"authid", "authrole", "authmethod", "authprovider", "x_authid", "x_authrole"} {
+				d[k] = "verif-scribbled"
+			}
 		}
 	default:
 		giveUp()
@@ -512,9 +540,11 @@ func (w *world) apply(op map[string]any) (out map[int][]wamp.Message, closed []i
 		go func() { defer w.helpers.Done(); w.r.RemoveRealm(wamp.URI(name)) }()
 	case "addRealm":
 		if m, ok := op["cfg"].(map[string]any); ok {
-			if err := w.r.AddRealm(realmConfig(w, m)); err != nil {
+			rc := realmConfig(w, m)
+			if err := w.r.AddRealm(rc); err != nil {
 				note = "refused"
 			}
+			scribbleConfig(rc)
 		}
 	case "rnd":
 	case "snapshot":
